@@ -513,6 +513,10 @@ func (x *Exec) strOfBytes(st *State, b smt.T) smt.T {
 	f := x.ctx.Fun("str$of", []string{BytesSort}, x.ctx.Sort(StrSort))
 	r := smt.App(x.ctx.Sort(StrSort), f, c)
 	st.assume(smt.Eq(x.slen(r), sLen(b)))
+	// the bytes of string(b) are the bytes of b
+	x.bytesVocab()
+	g := x.ctx.Fun("bytes$of", []string{x.ctx.Sort(StrSort)}, BytesSort)
+	st.assume(smt.Eq(smt.App(BytesSort, g, r), c))
 	return r
 }
 
